@@ -107,6 +107,8 @@ class Zsim:
                                      % self.env["ZSIM_REPORT_PATH"])
         if tests_dir:
             self.env["ZSIM_TESTS_DIR"] = tests_dir
+        self.env["ZSIM_TESTS_DIR"] = self.env.get("ZSIM_TESTS_DIR", os.path.join(os.environ.get("VERIF_REPO", "/repo"), "tests"))
+        self.env["ZSIM_FIXTURES_DIR"] = os.path.join(HERE, "fixtures", "elf")
         if extra_env:
             self.env.update(extra_env)
         self.proc = None
